@@ -19,12 +19,12 @@ RULE = ('G-doc documents under the hostile text policy: every word is a sentinel
         'statement). Outputs: OPML, FODT, ITMZ mapdata.xml, every .xml member of ODT, and container.xml / main.opf / nav.xhtml / main.xhtml of EPUB, '
         'x {default, no notes/critic, smart off, compatibility}. Oracle: the member parses with expat, a non-validating XML parser; no element or attribute NAME contains a sentinel, and every name belongs to the vocabulary of the format (a payload that '
         'closed its attribute or element would create foreign markup). Non-trivial: document with a hostile character in >=2 different slots, one of them an attribute slot; distinct by source.')
-ASSUMPTIONS = ['`<` is never followed by a letter, `/`, `!` or `?` (that would be user-written raw HTML) and `&` never starts a named entity',
+ASSUMPTIONS = ['`<` is never followed by a letter, `/`, `!` or `?` (that would be user-written raw HTML), except for an unmatched comment opener `<!--`, which is text and `&` never starts a named entity',
                'expat (non-validating) is exactly "well-formed"; the escaped space `\\ ` (known finding: &nbsp; in EPUB XHTML) is never generated',
                'containment is judged on names: the generator writes no raw HTML, so an element/attribute outside the format vocabulary can only come from a payload that broke out']
 
 # only unmatched halves of paired Markdown/CriticMarkup delimiters are used, so that two words can never form real markup between them
-PAYLOADS = ['&', '<', '>', '"', "'", ' & ', ' < ', ' > ', '"><x y="', "'><x y='", '--', '-->', '<<}', '<<', '&#60;', '&amp;', '&lt;', '& #', '&&', '<>', '</', '<=',
+PAYLOADS = ['<!--', '&', '<', '>', '"', "'", ' & ', ' < ', ' > ', '"><x y="', "'><x y='", '--', '-->', '<<}', '<<', '&#60;', '&amp;', '&lt;', '& #', '&&', '<>', '</', '<=',
             '1 < 2 > 0', 'é中', '😀', 'tab\there', '\\)', '~>', '++}', '==}', 'a&b', 'x"y', "x'y", '<3', '&;', '& ;', '%', '\\']
 ATTR_PAYLOADS = ['&', '"', "'", '<', '>', 'a&b', 'x"y', "it's", '1<2', '">', "'>"]
 LANGS = ['python', 'c++', 'a"b', 'x&y', 'a<b', "q'r", 'plain text']
@@ -68,7 +68,7 @@ def strategy(tier):
     return st.fixed_dictionaries({'doc': gdoc.document(CFG), 'ext': st.sampled_from(EXTS), 'lang': st.integers(0, 6), 'packages': st.integers(0, 3)})
 
 
-RAW_HTML = re.compile(r'<[A-Za-z/!?]')
+RAW_HTML = re.compile(r'<(?!!--)[A-Za-z/!?]')
 NAMED_ENT = re.compile(r'&[A-Za-z][A-Za-z0-9]*;')
 SENT_A = re.compile(r'q(\d+)a')
 
@@ -76,6 +76,8 @@ SENT_A = re.compile(r'q(\d+)a')
 def sanitize(src):
     """Keep the generated source inside the statement's domain (no raw HTML, no user-typed named entities other than the 5 XML ones)."""
     src = RAW_HTML.sub(lambda m: '< ' + m.group(0)[1:], src)
+    if '<!--' in src and '-->' in src:
+        src = src.replace('-->', '-- >')      # an unmatched comment opener is ordinary text; opener + closer would be a raw HTML comment (outside the statement)
     src = NAMED_ENT.sub(lambda m: m.group(0) if m.group(0) in ('&amp;', '&lt;', '&gt;', '&quot;', '&apos;') else '& ' + m.group(0)[1:], src)
     return ''.join(c for c in src if c in '\t\n\r' or ord(c) >= 0x20)
 
